@@ -948,6 +948,8 @@ def shards_delta(shards, other_shards):
     other_shards_iter = iter(other_shards)
     other_num_rows = other_cviews = None
     done = other_done = 0
+    # the cviews of the topmost shard fill all the columns
+    all_cols = sum(cv[2] for cv in shards[0][1]) if shards else 0
     for num_rows, cviews in shards:
         # other_num_rows is None: the other shards may be exhausted, nothing to compare the remaining shards with
         if other_num_rows is None:
@@ -960,7 +962,11 @@ def shards_delta(shards, other_shards):
             done += num_rows
             continue
         # top-aligned shards, compare each cview
-        yield (num_rows, shard_cviews_delta(cviews, other_cviews))
+        # (the columns of the cviews are known only if no cview continues from the shards above)
+        if sum(cv[2] for cv in cviews) == sum(cv[2] for cv in other_cviews) == all_cols:
+            yield (num_rows, shard_cviews_delta(cviews, other_cviews))
+        else:
+            yield (num_rows, cviews)
         other_done += other_num_rows
         other_num_rows = None
         done += num_rows
